@@ -28,4 +28,4 @@ def run(tier, seed):
         assumptions=["every lock region of the Go code is one atomic step (runs use GOMAXPROCS(1); data-race freedom is C18's concern)",
                      "targets answer 200; scripted probe and target transports replace the network",
                      "model/M5full.v is hand-written; tied to the code by acceptance of every recorded trace"],
-        forced=[forced.d2_refused_during_redeploy()])
+        forced=[forced.d2_refused_during_redeploy(), forced.deploy_waits_for_rotation(), forced.drain_grants_the_drain_timeout()])
